@@ -419,13 +419,26 @@ pub fn replay_satvec(args: &Args) {
 
 // ------------------------------------------------------------------ top-down compilation (C06)
 
-fn td_segment<'a, B: DecisionNNFBuilder<'a>>(b: &'a B, cnfs: &[Cnf], nv: usize, rng: &mut Rng, out: &mut Out) {
+/// `emb`: empty, or the label on which each variable of the recorded CNFs sits in the real builder (wide label space; monotone)
+fn td_segment<'a, B: DecisionNNFBuilder<'a>>(b: &'a B, cnfs: &[Cnf], nv: usize, emb: &[usize], rng: &mut Rng, out: &mut Out) {
     let mut ids = Ids::new();
+    let lab = |v: usize| if emb.is_empty() { v } else { emb[v] };
+    let nwide = if emb.is_empty() { nv } else { emb[nv - 1] + 1 };
+    if !emb.is_empty() {
+        ids.unlab = Some(emb.iter().enumerate().map(|(v, l)| (*l, v)).collect());
+    }
+    let embed = |c: &Cnf| -> Cnf {
+        if emb.is_empty() {
+            return c.clone();
+        }
+        Cnf::new(&c.clauses().iter().map(|cl| cl.iter().map(|l| Literal::new(VarLabel::new_usize(emb[l.label().value_usize()]), l.polarity())).collect()).collect::<Vec<Vec<Literal>>>())
+    };
     // slots: 0 True, 1 False, then per compiled CNF its result and its negation, then conditioned diagrams
     let mut pool: Vec<BddPtr<'a>> = vec![BddPtr::PtrTrue, BddPtr::PtrFalse];
     for cnf in cnfs {
         let mut ev = json!({"ev": "compile", "cnf": stored_json(cnf)});
-        let r = match guarded(|| b.compile_cnf_topdown(cnf)) {
+        let wide_cnf = embed(cnf);
+        let r = match guarded(|| b.compile_cnf_topdown(&wide_cnf)) {
             Ok(r) => r,
             Err(m) => {
                 ev["panic"] = json!(m);
@@ -451,7 +464,7 @@ fn td_segment<'a, B: DecisionNNFBuilder<'a>>(b: &'a B, cnfs: &[Cnf], nv: usize, 
         let (v, p) = (rng.below(nv), rng.coin());
         let x = pool[a];
         let mut ev = json!({"ev": "tcond", "a": [a, v, p as u8]});
-        match guarded(|| b.condition(x, VarLabel::new_usize(v), p)) {
+        match guarded(|| b.condition(x, VarLabel::new_usize(lab(v)), p)) {
             Ok(c) => {
                 let mut newn = vec![];
                 ev["root"] = json!(ids.ptr(c, &mut newn));
@@ -489,7 +502,10 @@ fn td_segment<'a, B: DecisionNNFBuilder<'a>>(b: &'a B, cnfs: &[Cnf], nv: usize, 
         if rng.chance(1, 3) {
             let a = rng.below(pool.len());
             let asg = rng.below(1 << nv);
-            let inst: Vec<bool> = (0..nv).map(|i| (asg >> i) & 1 == 1).collect();
+            let mut inst: Vec<bool> = vec![rng.coin(); nwide];
+            for i in 0..nv {
+                inst[lab(i)] = (asg >> i) & 1 == 1;
+            }
             let x = pool[a];
             let mut ev = json!({"ev": "eval", "a": [a, asg]});
             match guarded(|| x.evaluate(&inst)) {
@@ -505,7 +521,15 @@ fn td_segment<'a, B: DecisionNNFBuilder<'a>>(b: &'a B, cnfs: &[Cnf], nv: usize, 
             let wq = crate::bdd_rec::gen_weights(rng, kind, nv, true);
             let mut ev = json!({"ev": "wmc", "a": [a]});
             wq.log(&mut ev);
-            if let Err(m) = crate::bdd_rec::count_in(x, &wq, nv, &mut ev) {
+            // in a wide label space every unmentioned label carries the weights of variable 0
+            let wide_w = if emb.is_empty() { None } else {
+                let mut w = vec![wq.w[0].clone(); nwide];
+                for v in 0..nv {
+                    w[emb[v]] = wq.w[v].clone();
+                }
+                Some(crate::bdd_rec::WeightSpec { kind: wq.kind, p: wq.p, wexp: wq.wexp, w })
+            };
+            if let Err(m) = crate::bdd_rec::count_in(x, wide_w.as_ref().unwrap_or(&wq), nv, &mut ev) {
                 ev["panic"] = json!(m);
             }
             ev["dirty"] = json!(ids.dirty());
@@ -518,6 +542,9 @@ pub fn record_topdown(args: &Args) {
     let seed = args.num("seed", 1);
     let segs = args.num("segments", 20) as usize;
     let nmax = args.num("nmax", 5) as usize;
+    // --labels K: the builders work over up to K labels, the CNFs' variables sit on scattered labels (monotone embedding; the record
+    // is written in the compact numbering)
+    let nlabels = args.num("labels", 0) as usize;
     let mut out = Out::new(&args.str("out", "-"));
     let mut rng = Rng::new(seed ^ 0x70d);
     out.emit(json!({"ev": "init", "kind": "topdown", "nmax": nmax, "seed": seed}));
@@ -654,13 +681,38 @@ pub fn record_topdown(args: &Args) {
         let tcap = *rng.pick(&[0usize, 0, 2, 8]);
         rsdd::verif::set_table_capacity(tcap);
         out.emit(json!({"ev": "treset", "nv": nv, "order": order, "store": store, "tcap": tcap}));
-        let ord = VarOrder::new(&order.iter().map(|v| VarLabel::new_usize(*v)).collect::<Vec<_>>());
+        let emb: Vec<usize> = if nlabels > 0 && nv >= 2 {
+            let base = rng.below(6);
+            let mut e = vec![base, base + 64];
+            while e.len() < nv {
+                let l = rng.below(nlabels);
+                if !e.contains(&l) {
+                    e.push(l);
+                }
+            }
+            e.truncate(nv);
+            e.sort();
+            e
+        } else {
+            vec![]
+        };
+        // the real decision order: the mentioned labels in the recorded relative order, the unmentioned ones interleaved at random
+        let real_order: Vec<usize> = if emb.is_empty() { order.clone() } else {
+            let nwide = emb[nv - 1] + 1;
+            let mut full = rng.perm(nwide);
+            let slots: Vec<usize> = full.iter().enumerate().filter(|(_, l)| emb.contains(l)).map(|(k, _)| k).collect();
+            for (k, v) in slots.iter().zip(order.iter()) {
+                full[*k] = emb[*v];
+            }
+            full
+        };
+        let ord = VarOrder::new(&real_order.iter().map(|v| VarLabel::new_usize(*v)).collect::<Vec<_>>());
         if store == "std" {
             let b = StandardDecisionNNFBuilder::new(ord);
-            td_segment(&b, &cnfs, nv, &mut rng, &mut out);
+            td_segment(&b, &cnfs, nv, &emb, &mut rng, &mut out);
         } else {
             let b = SemanticDecisionNNFBuilder::<{ primes::U64_LARGEST }>::new(ord);
-            td_segment(&b, &cnfs, nv, &mut rng, &mut out);
+            td_segment(&b, &cnfs, nv, &emb, &mut rng, &mut out);
         }
     }
     rsdd::verif::set_table_capacity(0);
